@@ -110,6 +110,10 @@ for i, order in enumerate((("c1", "c2", "c3"), ("c2", "c1", "c3"))):
                 "steps": _starts(order) + [split(1, 10, 19, ["ins", "del"]), run("sa_101v0"), run("sa_102v0"), run("fwd:sa_101v0"), run("fwd:sa_102v0"),
                                            split(2, 20, 29, ["ins"])]})
 
+# end-to-end resume plans (driver ckpt, acceptor Ckpt_Trace PROP=C03) are kept as they are in C03.jsonl
+_c03file = os.path.join(os.path.dirname(os.path.abspath(__file__)), "C03.jsonl")
+if os.path.exists(_c03file):
+    c03 += [p for p in (json.loads(l) for l in open(_c03file) if l.strip()) if p.get("driver") == "ckpt"]
 for name, ps in (("C01", c01), ("C02", c02), ("C03", c03)):
     with open(os.path.join(os.path.dirname(os.path.abspath(__file__)), name + ".jsonl"), "w") as f:
         for p in ps:
